@@ -1,10 +1,12 @@
 (* C06 -- scores are efficient: they sum to full-data utility minus null utility.  Statements only.
-   (The precision clause "does not degrade with the number of rows" is checked at scale by the correspondence run
-   against exact rational arithmetic; no a-priori rounding bound is proved -- see DESIGN.md section 6.) *)
+   (Precision clause: C06_rounded_score / C06_rounded_efficiency below bound the rounding error of the kernel under the standard
+   model of floating-point arithmetic; the bound is linear in the number of units, not uniform -- see DESIGN.md 9.7.  The
+   correspondence run also measures the error at scale against exact rational arithmetic.) *)
 From Coq Require Import List Arith ZArith QArith Bool Permutation.
 From DS Require Import Util.SumQ Spec.Shapley Spec.NNGame Model.Kernel Model.Neighbor Model.Provenance Model.Bruteforce
      Model.ADD Spec.Count Spec.Knn Model.ShapleyAdd Model.MonteCarlo
-     Proofs.ShapleyAxioms Proofs.KernelFull Proofs.Linearity Proofs.MonteCarloProofs.
+     Proofs.ShapleyAxioms Proofs.KernelFull Proofs.Linearity Proofs.MonteCarloProofs Model.KernelRound Proofs.KernelRounding.
+From Coq Require Import Qabs.
 Import ListNotations.
 Local Open Scope Q_scope.
 
@@ -58,6 +60,35 @@ Theorem C06_mc_efficiency : forall P n v clock perms,
     sumQ (fun p => nth p scores 0) (seq 0 n) == v (alltrue n) - mc_null P.
 Proof. exact mc_efficiency. Qed.
 
+(* PRECISION.  Model/KernelRound.v is the kernel with every floating-point operation written as rnd (exact result):
+   current = rnd (current + rnd (rnd (U1 - U2) / (i+1))), out[p] = rnd (out[p] + current) point after point, result = rnd (out / T).
+   For EVERY rnd of relative error at most eps (binary64 round-to-nearest without overflow / underflow: eps = 2^-53) each score is
+   within ((1+eps)^(3n+T+1) - 1) * (the same recurrence over absolute values) of the exact score ... *)
+Theorem C06_rounded_score : forall (rnd : Q -> Q) (eps : Q), 0 <= eps -> (forall x, Qabs (rnd x - x) <= eps * Qabs x) ->
+  forall n (ts : list kpoint) p, (p < n)%nat -> (forall t, In t ts -> (length (snd t) <= n)%nat) ->
+  Qabs (nth p (rkernel_t rnd n ts) 0 - nth p (kernel_t n ts) 0) <= (pw eps (3 * n + length ts + 1) - 1) * nth p (akernel_t n ts) 0
+  /\ 0 <= nth p (akernel_t n ts) 0.
+Proof. exact rkernel_err. Qed.
+(* ... and the efficiency identity holds up to ((1+eps)^(3n+T+1) - 1) * mean total variation of the utility along the rank orders *)
+Theorem C06_rounded_efficiency : forall (rnd : Q -> Q) (eps : Q), 0 <= eps -> (forall x, Qabs (rnd x - x) <= eps * Qabs x) ->
+  forall n (ts : list kpoint), (0 < n)%nat -> ts <> [] -> (forall t, In t ts -> Permutation (snd t) (seq 0 n)) ->
+  Qabs (sumQ (fun x => x) (rkernel_t rnd n ts)
+        - sumQ (fun t : kpoint => hd_u (fst (fst t)) (snd (fst t)) (snd t) - snd (fst t)) ts / qn (length ts))
+  <= (pw eps (3 * n + length ts + 1) - 1) * (sumQ (fun t : kpoint => tv (fst (fst t)) (snd (fst t)) (snd t)) ts / qn (length ts)).
+Proof. exact rkernel_efficiency. Qed.
+(* the rounding-aware recurrence with rnd = identity is the exact one *)
+Theorem C06_rounded_model_is_exact_without_rounding : forall u null l pos, Forall2 Qeq (rcurs (fun x => x) u null pos l) (curs u null pos l).
+Proof. exact rcurs_id. Qed.
+(* non-vacuity: a genuinely perturbing rounding operator of relative error 1/1024 on a concrete two-point case: the sum of the
+   rounded scores differs from the exact right-hand side 13/4 and lies within the bound (mean total variation (7/2 + 5)/2) *)
+Example C06_rounded_instance :
+  let rnd := fun x : Q => x * (1025 # 1024) in
+  let ts : list kpoint := [((fun q => nth q [3; 1; 2] 0), 1 # 2, [2; 0; 1]%nat); ((fun q => nth q [0; 5; 1] 0), 0, [1; 2; 0]%nat)] in
+  Qle_bool (Qabs (sumQ (fun x => x) (rkernel_t rnd 3 ts) - (13 # 4))) ((pw (1 # 1024) 12 - 1) * (sumQ (fun t : kpoint => tv (fst (fst t)) (snd (fst t)) (snd t)) ts / 2)) = true
+  /\ Qeq_bool (sumQ (fun t : kpoint => tv (fst (fst t)) (snd (fst t)) (snd t)) ts / 2) (17 # 4) = true
+  /\ negb (Qeq_bool (sumQ (fun x => x) (rkernel_t rnd 3 ts)) (13 # 4)) = true.
+Proof. vm_compute. repeat split; reflexivity. Qed.
+
 Example C06_nonvacuous :
   let ts : list kpoint := [((fun q => nth q [3; 1; 2] 0), 1 # 2, [2; 0; 1]%nat); ((fun q => nth q [0; 5; 1] 0), 0, [1; 2; 0]%nat)] in
   Qred (sumQ (fun x => x) (kernel_t 3 ts)) = 13 # 4.
@@ -69,3 +100,6 @@ Print Assumptions C06_shapley_efficiency.
 Print Assumptions C06_bruteforce_efficiency.
 Print Assumptions C06_add_efficiency.
 Print Assumptions C06_mc_efficiency.
+Print Assumptions C06_rounded_score.
+Print Assumptions C06_rounded_efficiency.
+Print Assumptions C06_rounded_model_is_exact_without_rounding.
